@@ -69,6 +69,11 @@ func (p *PackageInfo) GetAllReferencedPackages() []*PackageInfo {
 	return refs
 }
 
+// Reports whether the name can be used as the 'namespace' of a package.
+func IsValidNamespaceName(name string) bool {
+	return namespaceNameRegex.MatchString(name)
+}
+
 func (p *PackageInfo) validate() error {
 	errorSink := &validation.ErrorSink{}
 
